@@ -1,7 +1,9 @@
 package main
 
 import (
+	"go/constant"
 	"go/token"
+	"go/types"
 	"sort"
 
 	"golang.org/x/tools/go/ssa"
@@ -44,6 +46,7 @@ type PF struct {
 	Undecided  []string // unsupported idioms met (conditional defer, ...)
 	// Visit, if set, is called with the state set holding *before* each instruction of the root analysis.
 	Visit func(fn *ssa.Function, in ssa.Instruction, before StateSet)
+	boolMemo map[interface{}]StateSet
 }
 
 type pfExit struct {
@@ -201,9 +204,22 @@ func (p *PF) run(fn *ssa.Function, entry StateSet, visit func(fn *ssa.Function, 
 		}
 		for idx, succ := range b.Succs {
 			es := s
-			if p.Edge != nil && len(b.Instrs) > 0 {
+			if len(b.Instrs) > 0 {
 				if iff, isIf := b.Instrs[len(b.Instrs)-1].(*ssa.If); isIf {
 					for _, g := range expandGuard(guard{cond: iff.Cond, val: idx == 0, blk: b}, 0) {
+						// a branch on the boolean result of a summarised helper: keep only the states the helper can
+						// return that value in ("ok := f.tryRecv(); if ok { … }")
+						if p.InScope != nil {
+							bv, pol := g.boolVal()
+							if call, ridx := boolResultCall(bv); call != nil {
+								if callee := staticCallee(&call.Call); callee != nil && callee.Blocks != nil && p.InScope(callee) {
+									es &= p.boolExits(callee, ridx, pol)
+								}
+							}
+						}
+						if p.Edge == nil {
+							continue
+						}
 						var out StateSet
 						es.each(func(q int) {
 							if ns, ok := p.Edge(fn, g, q); ok {
@@ -250,4 +266,61 @@ func retPos(r *ssa.Return) token.Pos {
 		return r.Pos()
 	}
 	return posOf(r)
+}
+
+// boolResultCall: v is the boolean result of a call (the call itself, or the Extract of a tuple result).
+func boolResultCall(v ssa.Value) (*ssa.Call, int) {
+	switch x := v.(type) {
+	case *ssa.Call:
+		if b, ok := x.Type().Underlying().(*types.Basic); ok && b.Kind() == types.Bool {
+			return x, 0
+		}
+	case *ssa.Extract:
+		if c, ok := x.Tuple.(*ssa.Call); ok {
+			if b, ok := x.Type().Underlying().(*types.Basic); ok && b.Kind() == types.Bool {
+				return c, x.Index
+			}
+		}
+	}
+	return nil, 0
+}
+
+// boolExits: the states in which callee can return with result #ridx equal to val (a result that is not a boolean constant
+// counts for both values), over all entry states.
+func (p *PF) boolExits(callee *ssa.Function, ridx int, val bool) StateSet {
+	type key struct {
+		fn   *ssa.Function
+		ridx int
+		val  bool
+	}
+	if p.boolMemo == nil {
+		p.boolMemo = map[interface{}]StateSet{}
+	}
+	k := key{callee, ridx, val}
+	if s, ok := p.boolMemo[k]; ok {
+		return s
+	}
+	all := StateSet(0)
+	for q := 0; q < p.N; q++ {
+		all |= ss(q)
+	}
+	p.boolMemo[k] = all // recursion guard: assume anything
+	var out StateSet
+	for q := 0; q < p.N; q++ {
+		for _, e := range p.run(callee, ss(q), nil) {
+			if ridx >= len(e.Ret.Results) {
+				out |= e.States
+				continue
+			}
+			rv := returnedValue(e.Ret, ridx)
+			if kc, ok := rv.(*ssa.Const); ok && kc.Value != nil && kc.Value.Kind() == constant.Bool {
+				if constant.BoolVal(kc.Value) != val {
+					continue
+				}
+			}
+			out |= e.States
+		}
+	}
+	p.boolMemo[k] = out
+	return out
 }
